@@ -8,6 +8,7 @@ K = @@K@@          # max indent length
 L = @@L@@          # max text length per line
 LEADERLESS = @@LEADERLESS@@
 NCP = @@NCP@@      # N * L
+PADIND = @@PADIND@@  # concrete prefix of the block indentation (deeply indented blocks), followed by the symbolic indent characters
 PAD = @@PAD@@      # concrete filler inserted in the middle of every non-empty text: long lines at a concrete, large length
 
 
@@ -53,7 +54,7 @@ def check(cps: $$CPS$$, m: $$MT$$, ind: $$IT$$, km: int) -> bool:
     indent = ""
     for k in range(K + 1):
         if km == k:
-            indent = hc.S(ind[:k])
+            indent = PADIND + hc.S(ind[:k])
     if LEADERLESS:
         lines = ["#[[["] + list(texts) + ["#]]"]
     else:
